@@ -369,6 +369,19 @@ Theorem C16_unobserve_silences_reentrant_refuted :
 Proof. exists [(1, HUnobserve 2)], [1; 2]. vm_compute. split; reflexivity. Qed.
 Print Assumptions C16_unobserve_silences_reentrant_refuted.
 
+(* assignments made by handlers (model assign_re / walk, in the correspondence): the outer store wins ... *)
+Theorem C16_reentrant_outer_store_wins : forall fuel sc v w w' obj,
+  assign_re fuel sc v w = Some (w', obj) -> w_val w' = v.
+Proof. exact outer_store_wins. Qed.
+Print Assumptions C16_reentrant_outer_store_wins.
+
+(* ... and the nested assignment reports as `old` the value from before the OUTER assignment, is delivered to all
+   handlers before the outer signal reaches the later ones: handler 1 assigns 10 when it sees new = 1 *)
+Example C16_example_reentrant_assign :
+  run_rcase2 {| rc2_subs := [1; 2]; rc2_script := [(1, AAssignIf 1 10)]; rc2_init := 0; rc2_values := [1] |} =
+  [[1; 0; 1;  1; 0; 10;  2; 0; 10;  2; 0; 1;  -7; 1; 2; -6; 1]].
+Proof. vm_compute. reflexivity. Qed.
+
 (* a handler subscribed by another handler during the round is reached by the same loop (called in that round) *)
 Example C16_example_reentrant_observe :
   run_rounds [(1, HObserve 3)] 2 [1; 2] = [[1; 2; 3; -7; 1; 2; 3]; [1; 2; 3; 3; -7; 1; 2; 3; 3]].
